@@ -2,7 +2,8 @@
    spec: spec/SignExtend.tla (extend requests: signatures with/without calendar chain, publication or authentication record x targets
    head / equal / later / earlier / supplied publication record; replies deviating from the honest extender in at most two of 11
    attributes) + HashChain-level declarative compatibility of calendar chains.  TLC checks SuccessOnlyIfValid and exports every behaviour;
-   each is replayed through KSI_Signature_extendTo / KSI_Signature_extend over the real blocking TCP client on scripted sockets with
+   each is replayed through KSI_Signature_extendTo / KSI_Signature_extend over the real blocking TCP client, and through
+   KSI_AsyncExtendingHandle_new + KSI_AsyncHandle_getSignature over the extending asynchronous service, on scripted sockets with
    replies from the independent reference extender; success must coincide with the spec and the result must keep the aggregation chains
    byte-identical, carry the new calendar chain (and the supplied publication record), drop former records, and leave the source untouched."""
 import json, os, random
@@ -16,7 +17,8 @@ def top(raw):
     return [(t, ksi.tlv(t, p, nc=nc, fw=fw)) for t, nc, fw, p, _ in ksi.parse_tlvs(ksi.parse_tlvs(raw)[0][3])]
 
 
-def one_case(chk, s, rng, c):
+def one_case(chk, s, rng, c, api="blocking"):
+    """api = blocking: EXTEND over the blocking client; async: ADDXS / RUN on the extending asynchronous service (KSI_AsyncExtendingHandle_new + getSignature)"""
     req, a = c["req"], c["reply"]
     doc = ksi.imprint(1, b"c08-%d" % rng.randrange(1 << 30))
     src = ksi.build_sig(rng, doc, nchains=rng.choice([1, 2]), anchor=(req["oldanchor"] if req["oldanchor"] != "none" else ("none-cal" if req["oldcal"] else None)),
@@ -30,12 +32,22 @@ def one_case(chk, s, rng, c):
         st = rng.getstate()
         _, pre = wire.ext_reply(wire_good(), rng, 1, src, aggr, pub_req)
         rng.setstate(st)
-        cmd = "EXTEND %s pub:%d:%s" % (raw_src.hex(), pub_req, (pre["root"] if t == "pubrec" else sigcase.flip(pre["root"])).hex())
+        cmd = "%s pub:%d:%s" % (raw_src.hex(), pub_req, (pre["root"] if t == "pubrec" else sigcase.flip(pre["root"])).hex())
     else:
-        cmd = "EXTEND %s %s" % (raw_src.hex(), "head" if t == "head" else str(pub_req))
-    out = s.cmd(cmd)
-    sent = [l for l in out if l.startswith("E send")]
-    if not out or not out[-1].startswith("Q recv"):
+        cmd = "%s %s" % (raw_src.hex(), "head" if t == "head" else str(pub_req))
+    if api == "async":
+        s.cmd("NEW 2 10 10 10 10 x")
+        out = s.cmd("ADDXS 1 " + cmd.replace(" head", " -"))
+        if " rc=0x0 " not in out[-1] + " ":
+            chk.violation("async-add-refused:extend", "the extending async service refused the request: %s" % out[-1][:200], dict(case=c, log=s.log[-10:])); return
+        out = s.cmd("RUN")
+        sent = [l for l in out if l.startswith("E send")]
+        if not sent:
+            chk.violation("no-request:extend:async", "the extending async service did not send the request", dict(case=c, log=s.log[-10:])); return
+    else:
+        out = s.cmd("EXTEND " + cmd)
+        sent = [l for l in out if l.startswith("E send")]
+    if api != "async" and (not out or not out[-1].startswith("Q recv")):
         r = [l for l in out if l.startswith("R extend")]
         ok = bool(r) and " rc=0x0 " in r[0] + " "
         if c["result"] == "success" or ok:
@@ -57,23 +69,38 @@ def one_case(chk, s, rng, c):
     if reply == "unrealisable":
         reply, info = wire.ext_reply(dict(a, rlinks="agree", what="close"), rng, rid, src, aggr, pub_req)
         c = dict(c, result="error")
-    if reply is None:
-        s.cmd("EP 1"); s.cmd("PEERCLOSE")
+    if api == "async":
+        s.cmd("PEERCLOSE" if reply is None else "S2C " + reply.hex())
+        r = ""
+        for _ in range(4):
+            out = s.cmd("RUN")
+            r = [l for l in out if l.startswith("R run")][-1]
+            if " h=1 " in r + " ":
+                break
+            s.cmd("TICK 11")
+        if " h=1 " not in r + " ":
+            chk.violation("async-never-completed:extend", "the extension request was never handed back: %s" % r[:200], dict(case=c, log=s.log[-25:])); return
+        f2 = dict(x.split("=", 1) for x in r.split()[2:] if "=" in x)
+        ok = f2.get("state") == "3" and f2.get("xsig") == "0x0"
+        f2.setdefault("src", "same")          # a request completed with an error never touched the source
     else:
-        s.cmd("EP 1"); s.cmd("S2C " + reply.hex())
-    out = s.cmd("GO")
-    while out and out[-1].startswith("Q recv"):
-        s.cmd("EP 1"); s.cmd("PEERCLOSE"); out = s.cmd("GO")
-    r = [l for l in out if l.startswith("R extend")][0]
-    ok = " rc=0x0 " in r + " "
-    f2 = dict(x.split("=", 1) for x in r.split()[2:] if "=" in x)
+        if reply is None:
+            s.cmd("EP 1"); s.cmd("PEERCLOSE")
+        else:
+            s.cmd("EP 1"); s.cmd("S2C " + reply.hex())
+        out = s.cmd("GO")
+        while out and out[-1].startswith("Q recv"):
+            s.cmd("EP 1"); s.cmd("PEERCLOSE"); out = s.cmd("GO")
+        r = [l for l in out if l.startswith("R extend")][0]
+        ok = " rc=0x0 " in r + " "
+        f2 = dict(x.split("=", 1) for x in r.split()[2:] if "=" in x)
     exp = c["result"] == "success"
     diff = sorted(k for k, v in a.items() if wire_good().get(k) != v)
-    shape = "%s:oldcal=%s:%s" % (t, req["oldcal"], req["oldanchor"])
+    shape = "%s%s:oldcal=%s:%s" % ("async:" if api == "async" else "", t, req["oldcal"], req["oldanchor"])
     if f2.get("src") != "same":
         chk.violation("source-modified:" + shape, "the source signature's serialization changed during extending (%s)" % r[:120], dict(case=c, log=s.log[-15:]))
     if ok and not exp:
-        chk.violation("accepted:extend:%s" % "+".join(diff or ["target-" + t]), "extending SUCCEEDED although the reply deviates in %s (%s), target %s" % (diff, {k: a[k] for k in diff}, t), dict(case=c, log=s.log[-20:]))
+        chk.violation("accepted:extend:%s%s" % ("async:" if api == "async" else "", "+".join(diff or ["target-" + t])), "extending SUCCEEDED although the reply deviates in %s (%s), target %s" % (diff, {k: a[k] for k in diff}, t), dict(case=c, log=s.log[-20:]))
     elif not ok and exp:
         chk.violation("rejected-honest:extend:" + shape, "extending FAILED on an honest reply (%s): %s" % (shape, r[:160]), dict(case=c, log=s.log[-20:]))
     elif ok:
@@ -138,7 +165,11 @@ def run(chk, tier, seed):
     try:
         s.cmd("BNEW")
         for c in cases_run:
-            one_case(chk, s, rng, c); n += 1
+            if c["req"].get("api", "blocking") == "blocking":
+                one_case(chk, s, rng, c); n += 1
+        for c in cases_run:
+            if c["req"].get("api") == "async":
+                one_case(chk, s, rng, c, api="async"); n += 1
     except netsim.Died as e:
         chk.violation("crash:extend", "libksi crashed/aborted during an extending call\n%s" % str(e)[-2500:], dict(log=s.log[-40:]))
         s = None
@@ -152,7 +183,7 @@ def run(chk, tier, seed):
     chk.add(evaluations=n, distinct_nontrivial=len(cases_run), model_behaviours=len(cases), exhaustive=(tier == "thorough"),
             rule="every behaviour of SignExtend.tla for extend requests (old calendar chain / publication / authentication record x target head, equal, later, earlier, "
                  "supplied publication record; replies deviating in at most 2 of 11 attributes); quick = all single deviations + 300 sampled double deviations")
-    chk.assumptions += ["the asynchronous extending service and KSI_extendSignature (publications-file driven) are exercised by C04", "right-link attribute is skipped when the calendar chain has no right link"]
+    chk.assumptions += ["KSI_extendSignature (publications-file driven) is exercised by C04", "right-link attribute is skipped when the calendar chain has no right link"]
 
 
 def replay(chk, path):
